@@ -37,6 +37,15 @@ fn run_one(c: &Case, p: &StiffProb, xend: f64, rtol: f64, atol: f64) -> Result<S
     }
 }
 
+/// "reach xend with Success": the last sample of a successful run is xend (32 ulp: the solvers' step resolution)
+fn short_of_xend(s: &Solution, x0: f64, xend: f64) -> Option<String> {
+    let tl = *s.t.last()?;
+    if s.status == Status::Success && (tl - xend).abs() > 8.0 * tau(x0, xend, tl) {
+        return Some(format!("Success reported but the last sample is {:e}, not xend = {:e} ({} accepted steps)", tl, xend, s.naccpt));
+    }
+    None
+}
+
 pub fn check(c: &Case) -> Outcome {
     let d = if c.back { -1.0 } else { 1.0 };
     let name = c.method.name();
@@ -56,6 +65,9 @@ pub fn check(c: &Case) -> Outcome {
             };
             if s.status != Status::Success {
                 return Outcome::viol(format!("{}: stiff linear problem with kappa=1e{:.1}, T={:.2}, rtol={:e} ended with {} after {} steps", name, c.lk, c.t_len, c.rtol, status_name(s.status), s.nstep));
+            }
+            if let Some(m) = short_of_xend(&s, c.x0, xend) {
+                return Outcome::viol(format!("{}: stiff linear problem (kappa=1e{:.1}): {}", name, c.lk, m));
             }
             // accuracy
             let mut emax: f64 = 0.0;
@@ -103,7 +115,9 @@ pub fn check(c: &Case) -> Outcome {
         StiffSpec::Chain { .. } | StiffSpec::Robertson => {
             let kappa = 10f64.powf(c.lk);
             let p = StiffProb::new(&c.spec, kappa, c.x0, 1.0);
-            let t_len = if matches!(c.spec, StiffSpec::Robertson) { 10f64.powf(c.t_len.min(5.0)) } else { c.t_len };
+            // Robertson: T = 10^U[0.4, 8.8] (the classic long-time test; beyond 1e9 the loosest tolerances generated here
+            // let y2 go negative, which is the problem's own instability)
+            let t_len = if matches!(c.spec, StiffSpec::Robertson) { 10f64.powf(c.t_len * 0.73) } else { c.t_len };
             // Robertson's second component is ~3e-5: an absolute tolerance above that would not
             // resolve it at all (the textbook setting is atol <= 1e-8)
             let atol = if matches!(c.spec, StiffSpec::Robertson) { (atol * 1e-5).min(1e-8) } else { atol };
@@ -113,6 +127,9 @@ pub fn check(c: &Case) -> Outcome {
             };
             if s.status != Status::Success {
                 return Outcome::viol(format!("{}: {} (T={:e}, rtol={:e}) ended with {} after {} steps", name, if matches!(c.spec, StiffSpec::Robertson) { "Robertson" } else { "kinetics chain" }, t_len, c.rtol, status_name(s.status), s.nstep));
+            }
+            if let Some(m) = short_of_xend(&s, c.x0, c.x0 + t_len) {
+                return Outcome::viol(format!("{}: {}: {}", name, if matches!(c.spec, StiffSpec::Robertson) { "Robertson" } else { "kinetics chain" }, m));
             }
             let w = p.invariant().unwrap();
             let y0 = p.y0();
@@ -138,6 +155,26 @@ pub fn check(c: &Case) -> Outcome {
             }
             Outcome::pass(format!("{}:{}", name, if matches!(c.spec, StiffSpec::Robertson) { "robertson" } else { "chain" }), true, json!({"drift_over_limit": drift / lim, "naccpt": s.naccpt}))
         }
+        StiffSpec::VdP { mu } if c.back => {
+            // relaxation oscillation through its fast transitions (T up to 2.2 mu, more than one period): the final
+            // state is ill-conditioned there, so only Success, landing on xend and a bounded step count are asserted
+            let p = StiffProb::new(&c.spec, 1.0, c.x0, 1.0);
+            let t_len = mu * (0.2 + 2.0 * (c.t_len / 12.0).clamp(0.0, 1.0));
+            let s = match run_one(c, &p, c.x0 + t_len, c.rtol, atol) {
+                Ok(s) => s,
+                Err(e) => return Outcome::viol(format!("{}: Van der Pol mu={} on [0,{:.1}]: {}", name, mu, t_len, e)),
+            };
+            if s.status != Status::Success {
+                return Outcome::viol(format!("{}: Van der Pol mu={} on [0,{:.1}] (relaxation oscillation, rtol {:e}) ended with {} after {} steps", name, mu, t_len, c.rtol, status_name(s.status), s.nstep));
+            }
+            if let Some(m) = short_of_xend(&s, c.x0, c.x0 + t_len) {
+                return Outcome::viol(format!("{}: Van der Pol mu={}: {}", name, mu, m));
+            }
+            if s.naccpt > 20000 {
+                return Outcome::viol(format!("{}: Van der Pol mu={} on [0,{:.1}]: {} accepted steps", name, mu, t_len, s.naccpt));
+            }
+            Outcome::pass("vdp-cycle", true, json!({"naccpt_cycle": s.naccpt, "nrejct": s.nrejct}))
+        }
         StiffSpec::VdP { mu } => {
             // slow-manifold phase only (well conditioned): T <= 0.5*mu
             let p = StiffProb::new(&c.spec, 1.0, c.x0, 1.0);
@@ -152,6 +189,11 @@ pub fn check(c: &Case) -> Outcome {
             };
             if sr.status != Status::Success || sb.status != Status::Success {
                 return Outcome::viol(format!("Van der Pol mu={} on [0,{:.1}] (slow phase): Radau {} / BDF {}", mu, t_len, status_name(sr.status), status_name(sb.status)));
+            }
+            for (s, nm) in [(&sr, "RADAU"), (&sb, "BDF")] {
+                if let Some(m) = short_of_xend(s, c.x0, c.x0 + t_len) {
+                    return Outcome::viol(format!("{}: Van der Pol mu={}: {}", nm, mu, m));
+                }
             }
             let (yr, yb) = (sr.y.last().unwrap(), sb.y.last().unwrap());
             let tolscale = atol + c.rtol * 2.0;
@@ -232,7 +274,7 @@ pub fn run(ctx: &Ctx, known: &[Known]) -> Report {
     let stats = run_generated(ctx, "C14", "gen", &strategy, &check, cases, known);
     Report {
         id: "C14".into(),
-        rule: "cases = stiff linear problems with closed-form solutions in two families (triangular coupling: fast block with rates kappa^u_j, one equal to kappa, driving a slow block, kappa = 1e2..1e10; fully mixed basis K = S diag(kappa^u) S^-1, kappa <= 1e6, rtol >= 1e-6), n = 1..8, initial transients of O(1), both directions (reflected so that the problem stays stable), T = 0.5..12; linear kinetics chains with total-mass conservation (kappa to 1e8); Robertson to T = 10^U[0.5,5]; Van der Pol (mu = 10..1000) on its slow phase; Radau and BDF, rtol 1e-3..1e-9 (BDF 1e-8), analytic or finite-difference Jacobian. Oracle: Success; error vs exact <= 100*cond(S)*naccpt*tolscale + floor; the same problem at kappa and at 1e2: naccpt(kappa) <= 3 naccpt(1e2) + 30 + 12 per decade of kappa above 1e2 (the excited transient is resolved with geometrically growing steps), nfev(kappa) <= 4 nfev(1e2) + 200; linear invariants to 1e-11*|w||y|*sqrt(steps) + 64 eps * flux * T (x1000 with the finite-difference Jacobian, which divides the right-hand side's rounding noise by its increment); Radau and BDF agree on Van der Pol. Non-trivial = kappa*T >= 1e4 (an explicit method would need thousands of steps), or a nonlinear problem. Distinct = distinct canonical JSON.".into(),
+        rule: "cases = stiff linear problems with closed-form solutions in two families (triangular coupling: fast block with rates kappa^u_j, one equal to kappa, driving a slow block, kappa = 1e2..1e10; fully mixed basis K = S diag(kappa^u) S^-1, kappa <= 1e6, rtol >= 1e-6), n = 1..8, initial transients of O(1), both directions (reflected so that the problem stays stable), T = 0.5..12; linear kinetics chains with total-mass conservation (kappa to 1e8); Robertson to T = 10^U[0.4,8.8]; Van der Pol (mu = 10..1000) on its slow phase (Radau vs BDF) or through more than one relaxation cycle (Success, landing, step count); Radau and BDF, rtol 1e-3..1e-9 (BDF 1e-8), analytic or finite-difference Jacobian. Oracle: Success with the last sample at xend (32 ulp); error vs exact <= 100*cond(S)*naccpt*tolscale + floor; the same problem at kappa and at 1e2: naccpt(kappa) <= 3 naccpt(1e2) + 30 + 12 per decade of kappa above 1e2 (the excited transient is resolved with geometrically growing steps), nfev(kappa) <= 4 nfev(1e2) + 200; linear invariants to 1e-11*|w||y|*sqrt(steps) + 64 eps * flux * T (x1000 with the finite-difference Jacobian, which divides the right-hand side's rounding noise by its increment); Radau and BDF agree on Van der Pol. Non-trivial = kappa*T >= 1e4 (an explicit method would need thousands of steps), or a nonlinear problem. Distinct = distinct canonical JSON.".into(),
         assumptions: vec![
             "fully mixed basis restricted to kappa <= 1e6 and rtol >= 1e-6: beyond that the rounding noise kappa*eps of the right-hand side itself prevents the slow components from meeting the tolerance (conditioning of the evaluation, not a solver defect)".into(),
             "Van der Pol only on the slow manifold phase T <= 0.5 mu (contractive, so the two methods must agree to tolerance)".into(),
